@@ -103,6 +103,67 @@ class SelectorPostInit(Contract):
 
 
 @register
+class ConditionItemFromParsed(Contract):
+    """operator node construction from the pyparsing result of one precedence level: NOT takes exactly the operand that follows the
+    keyword (nothing is merged or dropped: 'not not x' stays NOT(NOT(x))), AND / OR take every operand of the level in order, nested
+    groups stay nested"""
+    id = "C02.ConditionItem.from_parsed"
+    target = f"{COND}:ConditionItem.from_parsed"
+    props = ("C02", "C01")
+    cases = tuple((cls, n, nest) for cls in ("ConditionAND", "ConditionOR", "ConditionNOT") for n in (1, 2, 3, 4) for nest in (False, True)
+                  if (cls == "ConditionNOT") == (n == 1))
+    assumed = ["pyparsing hands over ParseResults whose element 0 is the token group of the level: [operand, keyword, operand, ...] for binary "
+               "operators, [keyword, operand] for NOT (pyparsing infix_notation, external)"]
+
+    def setup(self, E):
+        E.external_isinstance["pyparsing.ParseResults"] = lambda I, v: isinstance(v, SObj) and v.cls == "ParseResults"
+        E.external_isinstance["pyparsing.results.ParseResults"] = lambda I, v: isinstance(v, SObj) and v.cls == "ParseResults"
+        E.external_getitem = {"ParseResults": lambda I2, a, k: a[0].ghost["items"][I2.force(a[1])] if isinstance(I2.force(a[1]), (int, slice)) else (_ for _ in ()).throw(OutsideSubset("ParseResults key"))}
+
+    def args(self, I, case):
+        cname, n, nest = case
+        cls = I.E.index.lookup(f"{COND}:{cname}")
+        # operands: abstract trees; with nest, the first (for NOT: the only) operand is itself a node of the SAME class
+        operands = []
+        for i in range(n):
+            if nest and i == 0:
+                operands.append(SObj(cls, {"args": [SObj("Tree", {}, ghost={"i": "inner"})] if n == 1 else [SObj("Tree", {}, ghost={"i": "in0"}), SObj("Tree", {}, ghost={"i": "in1"})], "source": None, "parent": None}))
+            else:
+                operands.append(SObj("Tree", {}, ghost={"i": i}))
+        kw = {"ConditionAND": "and", "ConditionOR": "or", "ConditionNOT": "not"}[cname]
+        group = ["not", operands[0]] if n == 1 else [x for i, o in enumerate(operands) for x in ((kw, o) if i else (o,))]
+        t = SObj("ParseResults", {}, ghost={"items": [group]})
+        return {"self": ClassRef(cls), "args": [I.fresh("s", "str"), I.fresh("loc", "int"), t], "operands": operands, "cls": cls, "inner": list(operands[0].fields["args"]) if nest else None}
+
+    def post(self, I, inp, r):
+        c = I.ctx
+        ok = isinstance(r, list) and len(r) == 1 and isinstance(r[0], SObj) and r[0].cls is inp["cls"]
+        c.require(ok, "exactly one node of the operator's class is produced")
+        if ok:
+            a = r[0].fields.get("args")
+            a = I.force(a) if not isinstance(a, list) else a
+            binary = getattr(inp["cls"], "name", "") != "ConditionNOT"
+
+            def flat(xs):       # AND / OR are associative: a nested node of the same class denotes the same as its arguments in place
+                out = []
+                for x in xs:
+                    if binary and isinstance(x, SObj) and x.cls is inp["cls"] and isinstance(x.fields.get("args"), list):
+                        out += flat(x.fields["args"])
+                    else:
+                        out.append(x)
+                return out
+            want = flat(inp["operands"])
+            c.require(isinstance(a, list) and (binary or len(a) == 1) and len(flat(a)) == len(want) and all(x is y for x, y in zip(flat(a), want)),
+                      "the node's arguments are exactly the operands of the level, in order (up to associativity of AND / OR; NOT keeps its single operand, also when that is a NOT)")
+            if inp["inner"] is not None and r[0].fields.get("args") and any(x is inp["operands"][0] for x in a):
+                ia = inp["operands"][0].fields["args"]
+                c.require(isinstance(ia, list) and len(ia) == len(inp["inner"]) and all(x is y for x, y in zip(ia, inp["inner"])), "the nested node keeps its own arguments")
+
+    def frame_ok(self, I, inp, obj, name):
+        return False
+
+
+@register
 class ConditionItemPostprocess(Contract):
     """AND / OR / NOT postprocessing: children postprocessed in order, vanished (None) children dropped, a binary node with one child left
     is that child, a node with no child left vanishes"""
